@@ -75,6 +75,10 @@ class Session:
             else:
                 V.tenv.add_record(rname, rd["fields"], rd.get("mutable"))
         V.tenv.finish()
+        V.fstring_injective = getattr(side, "FSTRING_INJECTIVE", {})
+        if getattr(side, "USES_FS", False):
+            from . import fsmodel
+            fsmodel.install(V)
         if hasattr(side, "setup"):
             side.setup(V)
         files = getattr(side, "FILES", None) or {"": side.MODULE}
